@@ -351,7 +351,9 @@ func ValidateRequestBody(ctx context.Context, input *RequestValidationInput, req
 		}
 	}
 
-	if defaultsSet {
+	// The body is written back with its defaults only when there is an encoder for its media type;
+	// otherwise the request keeps the body it was sent with.
+	if defaultsSet && RegisteredBodyEncoder(mediaType) != nil {
 		// encode into a variable of its own: `data` is captured by the GetBody closure installed above
 		// and must keep the received bytes when encoding fails
 		newData, err := encodeBody(value, mediaType)
